@@ -580,6 +580,12 @@ class CFG:
             return None
         n = self.fn.node(b["cond"])
         while isinstance(n, dict):
+            # an expression a normalisation put in place of a call is evaluated in this one block: its && / || are not split over blocks
+            x = n
+            while isinstance(x, dict) and x.get("k") in ("cast", "paren") and not x.get("inlined_from") and isinstance(x.get("e"), dict):
+                x = x["e"]
+            if isinstance(x, dict) and x.get("inlined_from"):
+                return x
             s = strip(n)
             if s.get("k") == "bin" and s.get("op") in ("&&", "||"):
                 n = s["r"]
